@@ -248,3 +248,117 @@ theorem scan_off (bytes : Bytes) (cfg : Config) (s i : Nat) (f : Found) (off' : 
   | case7 start i hge hc => cases h; right; simp only; omega
   | case8 start i hge hc => cases h
 end Pelite.Strings
+
+namespace Pelite.Strings
+theorem step_of_none {bytes : Bytes} {cfg : Config} {off : Nat} (h : next bytes cfg off = none) :
+    step bytes cfg off = (none, off) := by
+  unfold step; rw [h]
+
+theorem nexts_of_none {bytes : Bytes} {cfg : Config} {off : Nat} (h : next bytes cfg off = none) (n : Nat) :
+    nexts bytes cfg off n = List.replicate n none := by
+  induction n with
+  | zero => rfl
+  | succ n ih => rw [nexts, step_of_none h, ih, List.replicate_succ]
+
+/-- with fuel `len + 1` (from offset 0) the loop `while let Some(_) = it.next() {}` has ended -/
+theorem next_finalOff (bytes : Bytes) (cfg : Config) (fuel off : Nat) (hoff : off ≤ bytes.size)
+    (hfuel : bytes.size + 1 ≤ fuel + off) : next bytes cfg (finalOff bytes cfg fuel off) = none := by
+  induction fuel generalizing off with
+  | zero => omega
+  | succ fuel ih =>
+    unfold finalOff
+    cases h : next bytes cfg off with
+    | none => exact h
+    | some p =>
+      obtain ⟨f, off'⟩ := p
+      obtain ⟨h1, h2⟩ := next_progress hoff h
+      exact ih off' h2 (by omega)
+
+end Pelite.Strings
+
+namespace Pelite.Strings
+
+theorem itemsFrom_of_none {bytes : Bytes} {cfg : Config} {off : Nat} (h : next bytes cfg off = none) :
+    itemsFrom bytes cfg off = [] := by
+  rw [itemsFrom]
+  split
+  · rfl
+  · next f off' h' => rw [h] at h'; cases h'
+
+theorem itemsFrom_of_some {bytes : Bytes} {cfg : Config} {off : Nat} {f : Found} {off' : Nat}
+    (h : next bytes cfg off = some (f, off')) :
+    itemsFrom bytes cfg off = f :: itemsFrom bytes cfg off' := by
+  rw [itemsFrom]
+  split
+  · next h' => rw [h] at h'; cases h'
+  · next f1 off1 h' => rw [h] at h'; cases h'; rfl
+
+theorem nthFound_spec (bytes : Bytes) (cfg : Config) (k off : Nat) :
+    (nthFound bytes cfg off k).1 = (itemsFrom bytes cfg off)[k]? ∧
+    itemsFrom bytes cfg (nthFound bytes cfg off k).2 = (itemsFrom bytes cfg off).drop (k + 1) := by
+  induction k generalizing off with
+  | zero =>
+    unfold nthFound step
+    cases h : next bytes cfg off with
+    | none => simp [itemsFrom_of_none h]
+    | some p => obtain ⟨f, off'⟩ := p; simp [itemsFrom_of_some h]
+  | succ k ih =>
+    unfold nthFound
+    cases h : next bytes cfg off with
+    | none => simp [itemsFrom_of_none h]
+    | some p =>
+      obtain ⟨f, off'⟩ := p
+      obtain ⟨h1, h2⟩ := ih off'
+      simp only [itemsFrom_of_some h, List.getElem?_cons_succ, List.drop_succ_cons]
+      exact ⟨h1, h2⟩
+
+theorem countFound_eq (bytes : Bytes) (cfg : Config) (off n : Nat) :
+    countFound bytes cfg off n = n + (itemsFrom bytes cfg off).length := by
+  fun_induction countFound bytes cfg off n with
+  | case1 off n h => rw [itemsFrom_of_none h]; rfl
+  | case2 off n f off' h _ ih => rw [ih, itemsFrom_of_some h, List.length_cons]; omega
+
+/-- `collect` with enough fuel is the total `itemsFrom` -/
+theorem enumAll_eq_itemsFrom (bytes : Bytes) (cfg : Config) (fuel off : Nat) (hoff : off ≤ bytes.size)
+    (hfuel : bytes.size + 2 ≤ fuel + off) : enumAll bytes cfg fuel off = .ok (itemsFrom bytes cfg off) := by
+  induction fuel generalizing off with
+  | zero => omega
+  | succ fuel ih =>
+    unfold enumAll
+    cases h : next bytes cfg off with
+    | none => simp only [itemsFrom_of_none h]
+    | some p =>
+      obtain ⟨f, off'⟩ := p
+      obtain ⟨h1, h2⟩ := next_progress hoff h
+      simp only [ih off' h2 (by omega), itemsFrom_of_some h]
+
+end Pelite.Strings
+
+namespace Pelite.Strings
+open Pelite.Seq
+
+theorem stepOp_spec (bytes : Bytes) (cfg : Config) (off : Nat) (o : Seq.Op) :
+    (stepOp bytes cfg off o).1 = (stepSeq Hint.unknown (itemsFrom bytes cfg off) o).1 ∧
+    itemsFrom bytes cfg (stepOp bytes cfg off o).2 = (stepSeq Hint.unknown (itemsFrom bytes cfg off) o).2 := by
+  cases o with
+  | next =>
+    unfold stepOp step
+    cases h : next bytes cfg off with
+    | none => simp [stepSeq, DequeSpec.next, itemsFrom_of_none h]
+    | some p => obtain ⟨f, off'⟩ := p; simp [stepSeq, DequeSpec.next, itemsFrom_of_some h]
+  | nth n =>
+    obtain ⟨h1, h2⟩ := nthFound_spec bytes cfg n off
+    simp [stepOp, stepSeq, DequeSpec.nth, h1, h2]
+  | sizeHint => simp [stepOp, stepSeq, sizeHintFound, Hint.unknown]
+  | count => simp [stepOp, stepSeq, countFound_eq]
+  | clone => simp [stepOp, stepSeq]
+
+theorem runOps_eq_runSeq (bytes : Bytes) (cfg : Config) (ops : List Seq.Op) (off : Nat) :
+    runOps bytes cfg off ops = runSeq Hint.unknown (itemsFrom bytes cfg off) ops := by
+  induction ops generalizing off with
+  | nil => rfl
+  | cons o os ih =>
+    obtain ⟨h1, h2⟩ := stepOp_spec bytes cfg off o
+    rw [runOps, runSeq, ih, h1, h2]
+
+end Pelite.Strings
